@@ -616,7 +616,10 @@ __goon:
 			return lexEscape
 
 		case utf8.RuneError:
-			l.errorf("invalid UTF-8 rune")
+			// a correctly encoded U+FFFD is an ordinary character
+			if l.width == 1 {
+				l.errorf("invalid UTF-8 rune")
+			}
 
 		case eof, '\n':
 			return l.errorf("unterminated quoted string within lexString")
